@@ -726,8 +726,10 @@ fn mime_same_value(a: &str, b: &str) -> bool {
     if a == b {
         return true;
     }
-    let pa: Vec<&str> = a.split(';').collect();
-    let pb: Vec<&str> = b.split(';').collect();
+    // RFC 9110 5.6.6: parameters = *( OWS ";" OWS [ parameter ] ) - an empty parameter (as in a trailing
+    // ";") carries no meaning, so it is not part of the value
+    let pa: Vec<&str> = a.split(';').enumerate().filter(|(i, p)| *i == 0 || !p.trim().is_empty()).map(|(_, p)| p).collect();
+    let pb: Vec<&str> = b.split(';').enumerate().filter(|(i, p)| *i == 0 || !p.trim().is_empty()).map(|(_, p)| p).collect();
     if pa.len() != pb.len() || !pa[0].trim().eq_ignore_ascii_case(pb[0].trim()) {
         return false;
     }
@@ -769,16 +771,20 @@ fn mimes(r: &mut Report, g: &mut Rng, n: u64) {
             }
             s
         };
-        let res = std::panic::catch_unwind(|| s.parse::<mime::Mime>().ok().map(|m| m.as_ref().to_owned()));
-        match res {
-            Err(p) => r.violated("C14/mime/panic", json!({"kind": "mime", "text": s, "panic": panic_message(&p)})),
-            Ok(None) => r.held("mime/refused"),
-            Ok(Some(out)) => {
-                if mime_same_value(&out, &s) {
-                    r.held(format!("mime/unchanged/{}", if s.contains(';') { "params" } else { "bare" }));
-                } else {
-                    r.violated("C14/mime/changed", json!({"kind": "mime", "text": s, "formatted": out}));
-                }
+        check_mime(r, &s);
+    }
+}
+
+fn check_mime(r: &mut Report, s: &str) {
+    let res = std::panic::catch_unwind(|| s.parse::<mime::Mime>().ok().map(|m| m.as_ref().to_owned()));
+    match res {
+        Err(p) => r.violated("C14/mime/panic", json!({"kind": "mime", "text": s, "panic": panic_message(&p)})),
+        Ok(None) => r.held("mime/refused"),
+        Ok(Some(out)) => {
+            if mime_same_value(&out, s) {
+                r.held(format!("mime/unchanged/{}", if s.contains(';') { "params" } else { "bare" }));
+            } else {
+                r.violated("C14/mime/changed", json!({"kind": "mime", "text": s, "formatted": out}));
             }
         }
     }
@@ -877,6 +883,7 @@ pub fn replay(v: &Value) -> i32 {
             let mut failing = std::collections::BTreeSet::new();
             check_copy_source(&mut r, w["bucket"].as_str().unwrap_or(""), w["key"].as_str().unwrap_or(""), w["version"].as_str(), &mut failing, Some("replay"));
         }
+        "mime" => check_mime(&mut r, w["text"].as_str().unwrap_or("")),
         k => harness_error(&format!("C14: cannot replay witness kind {k:?}")),
     }
     super::replay_verdict("C14", &r)
